@@ -275,13 +275,131 @@ Fixpoint oracle_qx (prev : option qstep) (steps : list qstep) (k : N) : option N
   | x :: r => match p_c10x prev x with Some c => Some (k * 16 + c) | None => oracle_qx (Some x) r (k + 1) end
   end.
 
+(* ---------- clause 13: a smart query is served by the code the registry names ---------- *)
+(* All foreign queries of ONE body (and all queries of one App-level batch) see the same state.  So if, in the
+   same body / batch, ContractInfo says that c runs code id, the handler that serves a smart query to c is that
+   code's (its log entry RQuery carries the code tag); and if ContractInfo does not know c, no handler is
+   invoked for c.  In particular this holds after a failed top-level call and after a caught failure: the code
+   of a rolled-back migration / instantiation must not answer.  Model-independent (input script, log, the
+   case's code table); claimed for the harness's inputs (node numbers unique); outside C10_model_ok. *)
+Fixpoint qacts_list (l : qacts) : list qact := match l with QANil => [] | QACons a r => a :: qacts_list r end.
+Definition body_queries (acts : list action) : list qact :=
+  flat_map (fun a => match a with AQ q => [q] | _ => [] end) acts.
+
+(* the log after the answer of the smart query issued at [node] *)
+Fixpoint skip_smart (node : N) (tr : trace) : option trace :=
+  match tr with
+  | [] => None
+  | RObs n (VSmart _) :: r => if n =? node then Some r else skip_smart node r
+  | _ :: r => skip_smart node r
+  end.
+
+(* pass 1: the ContractInfo answers of this body / batch *)
+Fixpoint collect_infos (node : N) (qs : list qact) (tr : trace) : list (text * option N) :=
+  match qs with
+  | [] => []
+  | QInfo c :: r =>
+      match tr with
+      | RObs _ (VInfo x) :: tr' => (c, option_map (fun t => fst (fst t)) x) :: collect_infos node r tr'
+      | _ :: tr' => collect_infos node r tr'
+      | [] => []
+      end
+  | QSmart _ _ :: r => match skip_smart node tr with Some tr' => collect_infos node r tr' | None => [] end
+  | _ :: r => match tr with _ :: tr' => collect_infos node r tr' | [] => [] end
+  end.
+
+Definition tag_of (codes : list (N * code)) (cid : N) : option N := option_map c_tag (find_code cid codes).
+
+(* pass 2: every smart query whose target has a ContractInfo answer in the same body / batch *)
+Fixpoint smart_served (codes : list (N * code)) (node : N) (infos : list (text * option N)) (qs : list qact) (tr : trace) : bool :=
+  match qs with
+  | [] => true
+  | QSmart c (QProg qn _ _) :: r =>
+      (match find (fun p => teqb (fst p) c) infos with
+       | Some (_, Some cid) =>
+           match tr with
+           | RQuery qn' c' _ tag :: _ => (qn' =? qn) && teqb c' c && option_eqb N.eqb (tag_of codes cid) (Some tag)
+           | _ => false                               (* the registered contract's handler was not invoked *)
+           end
+       | Some (_, None) =>
+           match tr with
+           | RQuery qn' c' _ _ :: _ => negb ((qn' =? qn) && teqb c' c)    (* a handler ran for an unknown contract *)
+           | _ => true
+           end
+       | None => true
+       end)
+      && match skip_smart node tr with Some tr' => smart_served codes node infos r tr' | None => true end
+  | _ :: r => match tr with _ :: tr' => smart_served codes node infos r tr' | [] => true end
+  end.
+
+Definition info_smart_ok (codes : list (N * code)) (node : N) (qs : list qact) (tr : trace) : bool :=
+  smart_served codes node (collect_infos node qs tr) qs tr.
+
+(* ---------- clause 14: bank answers agree with the ledger in the raw store ---------- *)
+(* A Supply d answer is the sum over ALL accounts of the ledger (Bank.bank_supply, C09) decoded from the raw
+   root store; a Balance answer is that account's entry.  For the App-level batch the ledger is the one after
+   the call (whatever failed or was rolled back inside it); for a Supply query in the root body of the next
+   call it is the ledger before that call (attached funds move coins, they do not change the supply).
+   [bal] = also judge Balance answers. *)
+Fixpoint bank_answers_ok (b : bank_state) (bal : bool) (node : N) (qs : list qact) (tr : trace) : bool :=
+  match qs with
+  | [] => true
+  | QSmart _ _ :: _ => if bal then match skip_smart node tr with
+                                   | Some tr' => match qs with _ :: r => bank_answers_ok b bal node r tr' | [] => true end
+                                   | None => true end
+                       else true
+  | QSupply d :: r =>
+      match tr with
+      | RObs _ (VAmount x) :: tr' => option_eqb N.eqb x (Some (bank_supply b d)) && bank_answers_ok b bal node r tr'
+      | _ :: tr' => bank_answers_ok b bal node r tr'
+      | [] => true
+      end
+  | QBalance a d :: r =>
+      match tr with
+      | RObs _ (VAmount (Some x)) :: tr' => (negb bal || (x =? bank_balance b a d)) && bank_answers_ok b bal node r tr'
+      | _ :: tr' => bank_answers_ok b bal node r tr'
+      | [] => true
+      end
+  | _ :: r => match tr with _ :: tr' => bank_answers_ok b bal node r tr' | [] => true end
+  end.
+
+Definition root_supply_ok (before : chain) (op : topop) (tr : trace) : bool :=
+  match root_call op, tr with
+  | Some (c, Prog node acts _), RCall n _ c' _ _ _ _ _ :: tr' =>
+      negb ((n =? node) && teqb c c') || bank_answers_ok (bank before) false node (body_queries acts) tr'
+  | _, _ => true
+  end.
+
+Definition p_c10y (ce : case_env) (batch : qacts) (prev : option qstep) (x : qstep) : option N :=
+  let st := q_step x in
+  first_fail [
+    (13, info_smart_ok (ce_codes ce) 0 (qacts_list batch) (q_tr1 x)
+         && forallb (fun pi => match pi_prog pi with
+                               | Prog n acts _ =>
+                                   match after_call n (st_trace st) with
+                                   | Some rest => info_smart_ok (ce_codes ce) n (body_queries acts) rest
+                                   | None => true end
+                               end) (flat_op (st_op st)));
+    (14, bank_answers_ok (bank (st_state st)) true 0 (qacts_list batch) (q_tr1 x)
+         && root_supply_ok (before_of prev) (st_op st) (st_trace st))
+  ].
+Fixpoint oracle_qy (ce : case_env) (batch : qacts) (prev : option qstep) (steps : list qstep) (k : N) : option N :=
+  match steps with
+  | [] => None
+  | x :: r => match p_c10y ce batch prev x with Some c => Some (k * 16 + c) | None => oracle_qy ce batch (Some x) r (k + 1) end
+  end.
+
 Definition c10 (ce : case_env) (batch : qacts) (steps : list qstep) : verdict :=
   match oracle_q None steps 0 with
   | Some c => PropFail c
   | None =>
       match oracle_qx None steps 0 with
       | Some c => PropFail c
-      | None => match corrq ce batch steps empty_chain 0 with Some k => Disagree k | None => Agree end
+      | None =>
+          match oracle_qy ce batch None steps 0 with
+          | Some c => PropFail c
+          | None => match corrq ce batch steps empty_chain 0 with Some k => Disagree k | None => Agree end
+          end
       end
   end.
 
@@ -496,12 +614,19 @@ Lemma c10_agree_sound ce batch steps : c10 ce batch steps = Agree ->
   oracle_q None steps 0 = None /\ corrq ce batch steps empty_chain 0 = None.
 Proof.
   unfold c10. destruct (oracle_q None steps 0); [discriminate|]. destruct (oracle_qx None steps 0); [discriminate|].
+  destruct (oracle_qy ce batch None steps 0); [discriminate|].
   destruct (corrq ce batch steps empty_chain 0); [discriminate|]. auto.
 Qed.
 
 Lemma c10_agree_sound_x ce batch steps : c10 ce batch steps = Agree -> oracle_qx None steps 0 = None.
 Proof.
   unfold c10. destruct (oracle_q None steps 0); [discriminate|]. destruct (oracle_qx None steps 0); [discriminate|]. reflexivity.
+Qed.
+
+Lemma c10_agree_sound_y ce batch steps : c10 ce batch steps = Agree -> oracle_qy ce batch None steps 0 = None.
+Proof.
+  unfold c10. destruct (oracle_q None steps 0); [discriminate|]. destruct (oracle_qx None steps 0); [discriminate|].
+  destruct (oracle_qy ce batch None steps 0); [discriminate|]. reflexivity.
 Qed.
 
 (* ---------- the further clauses on the model ---------- *)
